@@ -230,6 +230,9 @@ func VerifPoolTokens(k int, variant int) ([]lexer.Token, int) {
 	case 6: // three patterns that capture common strings in two different ways: several conflicting final states arise (C15)
 		fixedKinds = append(fixedKinds, "TOKEN", "=", "REGEX", ";", "TOKEN", "=", "REGEX", ";", "TOKEN", "=", "REGEX", ";", "IDENT", "=", "TOKEN", "TOKEN", "TOKEN", ";")
 		fixedLex = append(fixedLex, "TA", "=", "y", ";", "TB", "=", "y|zz", ";", "TC", "=", "zz", ";", "start", "=", "TA", "TB", "TC", ";")
+	case 7: // two tokens with invalid patterns: the automaton step reports several problems (C15)
+		fixedKinds = append(fixedKinds, "TOKEN", "=", "REGEX", ";", "TOKEN", "=", "REGEX", ";", "IDENT", "=", "TOKEN", "TOKEN", ";")
+		fixedLex = append(fixedLex, "TA", "=", "(", ";", "TB", "=", "[", ";", "start", "=", "TA", "TB", ";")
 	case 4: // a complete well-formed specification comes first, so that a repeated definition can be the only defect
 		fixedKinds = append(fixedKinds, "TOKEN", "=", "STRING", ";", "TOKEN", "=", "REGEX", ";", "IDENT", "=", "TOKEN", "TOKEN", ";")
 		fixedLex = append(fixedLex, "TA", "=", "s", ";", "TB", "=", "x", ";", "start", "=", "TA", "TB", ";")
